@@ -143,6 +143,45 @@ def rule_p2(ctx, F):
                 {"site": fn.loc(v.pt), "path": s.render_path(v.path)[-6:]})
 
 
+def rule_p4(ctx, F):
+    """Injection containment, structural part: an injected layer is parsed only over included
+    ranges that were accepted by the parser, and the ranges handed to an injected layer are always
+    computed by intersect_ranges (parent ranges ∩ content nodes).  With C13 (a ranged parse never
+    produces nodes outside its ranges) this gives "injected spans stay inside the content"."""
+    from taint import Taint
+    new = find_fn(ctx, F, "HighlightIterLayer::new", "P4")
+    nxt = [f for f in F.fn_list if f.name.startswith("<HighlightIter") and f.name.endswith("::next")]
+    if not new or not nxt:
+        return
+    nxt = nxt[0]
+    parses = [pt for pt, c, d in calls_named(new, "Parser::parse")]
+    text_gate(ctx, "P4", new, parses, [("a layer is parsed only after its ranges were installed successfully", [(("set_included_ranges", "is_ok"), True)])], accept_desc="parsing a layer")
+    is_src = lambda n, f: n.get("k") == "call" and "intersect_ranges" in (n.get("fn") or "")
+    # (1) combined injections queued inside new()
+    T = Taint(F, [new], is_src).run()
+    pushes = [(pt, n) for pt, n in vec_calls(new, "::push", "queue")]
+    ctx.floor("queued combined-injection layers in HighlightIterLayer::new", len(pushes), 1)
+    for pt, n in pushes:
+        if T.expr_tainted(n["a"][1], new):
+            ctx.ok("P4", "new:queued-ranges-from-intersect_ranges", "the ranges of a queued combined-injection layer come from intersect_ranges", sample={"site": new.loc(pt)})
+        else:
+            ctx.bad("P4", "new:queued-ranges-from-intersect_ranges", "HighlightIterLayer::new queues an injected layer at %s whose ranges do not come from intersect_ranges: its spans are not confined to the injection's content" % new.loc(pt),
+                    {"site": new.loc(pt)})
+    # (2) plain injections discovered while iterating
+    T2 = Taint(F, [nxt], is_src).run()
+    calls = [(pt, c) for pt, c, d in calls_named(nxt, "HighlightIterLayer", "::new")]
+    ctx.floor("injected-layer constructions in HighlightIter::next", len(calls), 1)
+    for pt, c in calls:
+        if any(T2.expr_tainted(a, nxt) for a in c["a"][-1:]):
+            ctx.ok("P4", "next:injected-ranges-from-intersect_ranges", "the ranges of an injected layer come from intersect_ranges", sample={"site": nxt.loc(pt)})
+        else:
+            ctx.bad("P4", "next:injected-ranges-from-intersect_ranges", "HighlightIter::next builds an injected layer at %s whose ranges do not come from intersect_ranges" % nxt.loc(pt), {"site": nxt.loc(pt)})
+    # who may construct layers at all
+    for f in F.fn_list:
+        if calls_named(f, "HighlightIterLayer", "::new") and f is not nxt and not f.name.endswith("Highlighter::highlight"):
+            ctx.bad("P4", "%s:constructs-layer" % f.name, "%s constructs a HighlightIterLayer; only Highlighter::highlight (whole document) and HighlightIter::next (injections) may" % f.name)
+
+
 def emptying_points(F, fn, recv_sub, depth=0, seen=()):
     """Points of fn that leave the Vec denoted by `recv_sub` empty: Vec::clear, truncate(0), or a
     call of a local helper that empties its corresponding parameter on every path to its return."""
@@ -226,6 +265,7 @@ def run(ctx):
     rule_g1(ctx, F)
     rule_p2(ctx, F)
     rule_p3(ctx, F)
+    rule_p4(ctx, F)
     return ctx.finish(
         "Pairing, who-may-construct and gate rules over rustc MIR of tree-sitter-highlight: HighlightStart↔push and HighlightEnd↔pop of the end stack in both directions and nowhere else; "
         "Source spans only from emit_event (advancing byte_offset) and the tail; None only after the tail; raw bytes reach the HTML only unescaped-safe, never CR; final newline. "
